@@ -222,7 +222,18 @@ def genTabStmt (i : Nat) : G (Stmt × String) := do
     pure (s, "private")
   | 0 => do let s ← genC01 { suffixes := false, maxDepth := 3, maxComps := 4 }; pure (s, "simple")
   | 1 => do let s ← genSupC02 2; pure (s, "nested")
-  | 2 => do let s ← genNestedSup { depth := 1, pairs := true }; pure (s, "pairs")
+  | 2 =>
+    if (i / 5) % 3 = 2 then do
+      -- a pair combination of three groups inside a nested statement (operators on two levels)
+      let g : GS Stmt := do
+        let outer ← genFlatParts (← liftG (range 1 2)) 1
+        let inner ← genFlatParts (← liftG (range 1 2)) 0
+        let t ← genGTree {} 3
+        let sym ← liftG (pick (Sym.nestables.filter (fun s => !s.isProperty)))
+        pure (.mk (outer ++ [.nested { sym := sym } (.mk (inner ++ [.pairs t]))]))
+      let (s, _) ← g.run 0
+      pure (s, "pairs-of-three-inside-nested")
+    else do let s ← genNestedSup { depth := 1, pairs := true, nestedPairs := true }; pure (s, "pairs")
   | _ => do let s ← genSupC02 3; pure (s, "nested-deep")
 
 /-- number of rows a statement produces (product of alternatives per statement, summed over the
